@@ -1834,6 +1834,14 @@ func generatePrefixStringTemplate(scope *parser.Scope) string {
 	for i, variable := range scope.Prefix.Variables {
 		vars[i] = fmt.Sprintf("$%s", variable)
 	}
+	// A variable that ends the prefix is directly followed by the topic
+	// delimiter; if that starts with an identifier character (e.g. "_") the
+	// plain $name form would swallow it, so use ${name} there.
+	if n := len(vars); n > 0 && strings.HasSuffix(scope.Prefix.String, "}") && len(globals.TopicDelimiter) > 0 {
+		if c := globals.TopicDelimiter[0]; c == '_' || c == '$' || (c >= '0' && c <= '9') || (c >= 'a' && c <= 'z') || (c >= 'A' && c <= 'Z') {
+			vars[n-1] = fmt.Sprintf("${%s}", scope.Prefix.Variables[n-1])
+		}
+	}
 	template = fmt.Sprintf(template, vars...)
 	return template
 }
